@@ -295,6 +295,7 @@ fn scenario(conn: Conn, layout: Layout, per_producer: usize, nkeys: i64, bound: 
         shards: 1,
         nontrivial: true,
         unbounded: false,
+        loop_body: false,
     }
 }
 
